@@ -25,6 +25,7 @@ pub struct Lim {
     pub b: usize,
     pub r: usize,
     pub l: usize,
+    #[allow(dead_code)]
     pub lr: usize,
     pub ovf_req: bool,
     pub ovf_resp: bool,
@@ -117,6 +118,8 @@ pub struct ClientM {
     pub ghosts: Vec<Uid>,
     /// a pending response was dropped while responses were still buffered for it
     pub garbage: bool,
+    /// a server sent a response for a request of this client after its pending response was dropped
+    pub stale: bool,
     /// request loans the user holds
     pub loans: usize,
 }
@@ -155,7 +158,7 @@ impl Spec {
     }
 
     pub fn create_client(&mut self, idx: usize, uid: Uid) {
-        self.clients[idx] = Some(ClientM { uid, pend: Vec::new(), sent: 0, known: Vec::new(), ghosts: Vec::new(), garbage: false, loans: 0 });
+        self.clients[idx] = Some(ClientM { uid, pend: Vec::new(), sent: 0, known: Vec::new(), ghosts: Vec::new(), garbage: false, stale: false, loans: 0 });
         self.discover(idx);
     }
 
@@ -388,6 +391,10 @@ impl Spec {
         };
         if !req.alive {
             a.stale_sent = true;
+            let cu = req.client;
+            if let Some(cl) = self.clients.iter_mut().flatten().find(|c| c.uid == cu) {
+                cl.stale = true;
+            }
             return;
         }
         if let Some(l) = req.links.get_mut(&suid) {
@@ -647,16 +654,17 @@ impl Spec {
     }
 
     pub fn classify_phantom_response(&self, c: usize, k: usize) -> String {
-        let _ = (c, k);
+        let _ = k;
         let stale: Vec<&ActM> = self.servers.iter().flatten().flat_map(|s| s.act.iter()).filter(|a| a.stale_sent).collect();
+        let cl = self.clients[c].as_ref();
         if stale.iter().any(|a| self.reqs.get(&a.rid).map(|r| !self.client_alive(r.client)).unwrap_or(true)) {
             "a held active request of a dropped client sent a response (client slot reused)".into()
-        } else if !stale.is_empty() {
-            "a held active request sent a response after its pending response was dropped (channel reused)".into()
-        } else if self.clients[c].as_ref().map(|c| c.garbage).unwrap_or(false) {
+        } else if cl.map(|c| c.stale).unwrap_or(false) {
+            "a response was sent through an active request after its pending response was dropped (channel reused)".into()
+        } else if cl.map(|c| c.garbage).unwrap_or(false) {
             "an earlier pending response was dropped with unreceived responses (channel reused)".into()
         } else {
-            "no response was sent on a closed stream by a held active request".into()
+            "other".into()
         }
     }
 
@@ -718,7 +726,7 @@ impl Spec {
             o.push(SEP);
             if let Some(c) = c {
                 o.push(ur(c.uid));
-                o.push(c.sent as u32 | (c.garbage as u32) << 8 | (c.loans as u32) << 12);
+                o.push(c.sent as u32 | (c.garbage as u32) << 8 | (c.stale as u32) << 9 | (c.loans as u32) << 12);
                 o.extend(c.known.iter().map(|u| ur(*u)));
                 o.push(SEP + 7);
                 o.extend(c.ghosts.iter().map(|u| ur(*u)));
